@@ -1211,3 +1211,7 @@ val trp : expr -> nat -> ((tok list * ast) * value list) option
 val number_q : bytes0 -> nat -> bool -> bool -> bytes0
 
 val number_placeholders : bytes0 -> bytes0
+
+val esc_u : classes -> nat -> bytes -> bytes
+
+val esc : classes -> bytes -> bytes
